@@ -1,0 +1,15 @@
+//go:build verif
+// +build verif
+
+package dimension
+
+// VerifKeys returns a copy of the dimension's keys (build tag "verif").
+func (d *Dimension) VerifKeys() []Key {
+	d.m.RLock()
+	defer d.m.RUnlock()
+	res := make([]Key, len(d.keys))
+	for i, k := range d.keys {
+		res[i] = append(Key{}, k...)
+	}
+	return res
+}
